@@ -20,12 +20,16 @@ package signature
 //@ func RawSignature.UnmarshalBinary
 //@   props C09 C16
 //@   safety bounds nil
+//@   modifies *r
+//@   trustframe
 //@   ensures (err == nil) == (len(data) == SignatureSize)
 //@   note a signature field decodes only from EXACTLY 64 bytes: a longer field is rejected, not truncated - otherwise bytes appended to the signature field of a signed envelope give a different byte string (another transaction hash) that still opens (seed C09_i accepted longer fields)
 
 //@ func PublicKey.UnmarshalBinary
 //@   props C09 C16
 //@   safety bounds nil
+//@   modifies *k
+//@   trustframe
 //@   ensures (err == nil) == (len(data) == PublicKeySize)
 //@   note a public key decodes only from exactly 32 bytes
 
